@@ -36,13 +36,24 @@ class Spelling(ast.NodeTransformer):
     OPERATOR_BIN = {'add': ast.Add, 'sub': ast.Sub, 'mul': ast.Mult, 'truediv': ast.Div, 'floordiv': ast.FloorDiv, 'mod': ast.Mod, 'pow': ast.Pow, 'matmul': ast.MatMult}
     OPERATOR_CMP = {'eq': ast.Eq, 'ne': ast.NotEq, 'lt': ast.Lt, 'le': ast.LtE, 'gt': ast.Gt, 'ge': ast.GtE, 'is_': ast.Is, 'is_not': ast.IsNot}
 
+    def visit_Attribute(self, node):
+        self.generic_visit(node)
+        # math.inf / math.pi / math.e / math.nan are the same floats as np.inf / np.pi / np.e (nan: any nan)
+        if isinstance(node.value, ast.Name) and node.value.id in getattr(self, 'math_aliases', ()) and node.attr in ('inf', 'pi', 'e', 'nan') and isinstance(node.ctx, ast.Load):
+            return ast.copy_location(ast.Attribute(value=ast.Name(id='np', ctx=ast.Load()), attr=node.attr, ctx=ast.Load()), node)
+        return node
+
     def visit_Call(self, node):
         self.generic_visit(node)
         # operator.add(a, b) -> a + b ; operator.neg(a) -> -a ; operator.getitem(a, i) -> a[i] ; operator.not_(a) -> not a
         f0 = node.func
-        if isinstance(f0, ast.Attribute) and isinstance(f0.value, ast.Name) and f0.value.id in ('operator', '_operator', 'op') and not node.keywords \
-                and not any(isinstance(a, ast.Starred) for a in node.args) and f0.value.id in getattr(self, 'operator_aliases', ('operator',)):
-            nm = f0.attr
+        nm = None
+        if not node.keywords and not any(isinstance(a, ast.Starred) for a in node.args):
+            if isinstance(f0, ast.Attribute) and isinstance(f0.value, ast.Name) and f0.value.id in getattr(self, 'operator_aliases', ()):
+                nm = f0.attr
+            elif isinstance(f0, ast.Name) and f0.id in getattr(self, 'operator_names', {}):
+                nm = self.operator_names[f0.id]
+        if nm is not None:
             if nm in self.OPERATOR_BIN and len(node.args) == 2:
                 return ast.copy_location(ast.BinOp(left=node.args[0], op=self.OPERATOR_BIN[nm](), right=node.args[1]), node)
             if nm in self.OPERATOR_CMP and len(node.args) == 2:
@@ -597,10 +608,22 @@ class Inliner:
 
             def visit_IfExp(self, n):
                 n.test = self.visit(n.test)
-                return n        # do not hoist calls out of conditionally evaluated branches
+                # do not hoist calls out of conditionally evaluated branches: only helpers that are one expression are substituted there
+                self.nested += 1
+                try:
+                    n.body = self.visit(n.body)
+                    n.orelse = self.visit(n.orelse)
+                finally:
+                    self.nested -= 1
+                return n
 
             def visit_BoolOp(self, n):
                 n.values[0] = self.visit(n.values[0])
+                self.nested += 1
+                try:
+                    n.values[1:] = [self.visit(v) for v in n.values[1:]]
+                finally:
+                    self.nested -= 1
                 return n
 
             def visit_Call(self, n):
@@ -1505,6 +1528,213 @@ def _walk_fn_own(fn):
         stack.extend(ast.iter_child_nodes(n))
 
 
+STD_MODULES = {'operator', 'math', 'functools', 'itertools', 'contextlib', 'collections', 'typing', 'dataclasses', 'copy', 'warnings', 'numbers', 'abc', 'enum'}
+
+
+def _canon_std_imports(tree):
+    """private aliases of standard-library imports get the library's own names back:
+         import operator as _op -> import operator ;  from functools import lru_cache as _lru_cache -> from functools import lru_cache
+    (only when the canonical name is not used for anything else in the module)"""
+    used = set()
+    for n in ast.walk(tree):
+        if isinstance(n, ast.Name):
+            used.add(n.id)
+        elif isinstance(n, ast.arg):
+            used.add(n.arg)
+        elif isinstance(n, (ast.FunctionDef, ast.ClassDef, ast.AsyncFunctionDef)):
+            used.add(n.name)
+        elif isinstance(n, (ast.Import, ast.ImportFrom)):
+            for a in n.names:
+                used.add(a.asname or a.name.split('.')[0])
+    ren = {}
+    for n in tree.body:
+        if isinstance(n, ast.Import):
+            for a in n.names:
+                if a.asname and a.name in STD_MODULES and a.asname != a.name and a.name not in used and a.asname not in ren:
+                    ren[a.asname] = a.name
+                    a.asname = None
+        elif isinstance(n, ast.ImportFrom) and n.level == 0 and n.module and n.module.split('.')[0] in STD_MODULES:
+            for a in n.names:
+                if a.asname and a.asname != a.name and a.name not in used and a.asname not in ren and a.name != '*':
+                    ren[a.asname] = a.name
+                    a.asname = None
+    if not ren:
+        return False
+    # an alias that is also (re)bound some other way stays as written
+    for n in ast.walk(tree):
+        if isinstance(n, ast.Name) and isinstance(n.ctx, (ast.Store, ast.Del)) and n.id in ren:
+            return False
+        if isinstance(n, ast.arg) and n.arg in ren:
+            return False
+    for n in ast.walk(tree):
+        if isinstance(n, ast.Name) and n.id in ren:
+            n.id = ren[n.id]
+    return True
+
+
+def _expand_private_contextmanagers(tree):
+    """a private @contextmanager generator function with one top-level `yield` is split into an enter helper and an exit helper, and every
+    `with _cm(args) as v: BODY` becomes
+         v, s1, .. = _cm__enter(args) ; try: BODY finally: _cm__exit(s1, ..)          (generator of the form  PRE ; try: yield V finally: POST)
+         v = _cm__enter(args) ; BODY ; [_cm__exit(..)]                                 (generator of the form  PRE ; yield V ; POST - POST only runs when BODY completes,
+                                                                                        so BODY must not leave through return / break / continue when POST is not empty)
+    The helpers are ordinary private functions: the inliner then substitutes them."""
+    def deco_is_cm(d):
+        return ast.unparse(d).split('.')[-1] == 'contextmanager'
+    cms = {}
+    containers = [tree] + [n for n in tree.body if isinstance(n, ast.ClassDef)]
+    for c in containers:
+        for fn in c.body:
+            if isinstance(fn, ast.FunctionDef) and fn.name.startswith('_') and not fn.name.startswith('__') and any(deco_is_cm(d) for d in fn.decorator_list):
+                others = [d for d in fn.decorator_list if not deco_is_cm(d)]
+                if others and not (c is not tree and all(isinstance(d, ast.Name) and d.id == 'staticmethod' for d in others)):
+                    continue
+                if fn.args.vararg or fn.args.kwarg:
+                    continue
+                body = list(fn.body)
+                ys = [x for x in _walk_fn_own(fn) if isinstance(x, (ast.Yield, ast.YieldFrom))]
+                if len(ys) != 1 or not isinstance(ys[0], ast.Yield):
+                    continue
+                pre, post, yv, guarded = None, None, None, False
+                for i, st in enumerate(body):
+                    if isinstance(st, ast.Expr) and st.value is ys[0]:
+                        pre, post, yv = body[:i], body[i + 1:], ys[0].value
+                    elif isinstance(st, ast.Try) and not st.handlers and not st.orelse and len(st.body) == 1 and isinstance(st.body[0], ast.Expr) and st.body[0].value is ys[0] \
+                            and i == len(body) - 1:
+                        pre, post, yv, guarded = body[:i], list(st.finalbody), ys[0].value, True
+                if pre is None:
+                    continue
+                if any(isinstance(x, ast.Return) for st in pre + post for x in ast.walk(st)):
+                    continue
+                cms[fn.name] = (c, fn, pre, post, yv, guarded)
+    if not cms:
+        return False
+    changed = False
+    counter = [0]
+
+    def leaves(body):
+        """BODY may leave the with block other than by falling off its end or raising"""
+        for st in body:
+            for x in _walk_stmt_own(st):
+                if isinstance(x, ast.Return):
+                    return True
+                if isinstance(x, (ast.Break, ast.Continue)):
+                    return True         # conservative: even inside an inner loop
+        return False
+
+    def state_names(fn, pre, post):
+        stored = {x.id for st in pre for x in ast.walk(st) if isinstance(x, ast.Name) and isinstance(x.ctx, ast.Store)}
+        params = [a.arg for a in fn.args.posonlyargs + fn.args.args + fn.args.kwonlyargs]
+        loaded = [x.id for st in post for x in ast.walk(st) if isinstance(x, ast.Name) and isinstance(x.ctx, ast.Load)]
+        out = []
+        for nm in loaded:
+            if (nm in stored or nm in params) and nm not in out:
+                out.append(nm)
+        return out
+    made = {}
+    pending = []
+
+    def helpers_for(name):
+        if name in made:
+            return made[name]
+        c, fn, pre, post, yv, guarded = cms[name]
+        st = state_names(fn, pre, post)
+        stored_post = {x.id for s_ in post for x in ast.walk(s_) if isinstance(x, ast.Name) and isinstance(x.ctx, ast.Store)}
+        yv_e = copy.deepcopy(yv) if yv is not None else ast.Constant(value=None)
+        ret = yv_e if not post else ast.Tuple(elts=[yv_e] + [ast.Name(id=n_, ctx=ast.Load()) for n_ in st], ctx=ast.Load())
+        enter = ast.FunctionDef(name=name + '__enter', args=copy.deepcopy(fn.args), body=[copy.deepcopy(x) for x in pre if not (isinstance(x, ast.Expr) and isinstance(x.value, ast.Constant))] + [ast.Return(value=ret)],
+                                decorator_list=[d for d in fn.decorator_list if isinstance(d, ast.Name) and d.id == 'staticmethod'], returns=None, type_params=[])
+        new = [enter]
+        if post:
+            ex_args = ast.arguments(posonlyargs=[], args=[ast.arg(arg=n_) for n_ in st], vararg=None, kwonlyargs=[], kw_defaults=[], kwarg=None, defaults=[])
+            exit_ = ast.FunctionDef(name=name + '__exit', args=ex_args, body=[copy.deepcopy(x) for x in post] + [ast.Return(value=ast.Constant(value=None))],
+                                    decorator_list=[ast.Name(id='staticmethod', ctx=ast.Load())] if c is not tree else [], returns=None, type_params=[])
+            new.append(exit_)
+        for d in new:
+            ast.copy_location(d, fn)
+            ast.fix_missing_locations(d)
+        pending.append((c, fn, new))
+        made[name] = (st, bool(post), guarded, c is not tree and not any(isinstance(d, ast.Name) and d.id == 'staticmethod' for d in fn.decorator_list))
+        return made[name]
+
+    class T(ast.NodeTransformer):
+        def visit_With(self, node):
+            self.generic_visit(node)
+            if len(node.items) != 1:
+                return node
+            it = node.items[0]
+            call = it.context_expr
+            if not isinstance(call, ast.Call):
+                return node
+            f = call.func
+            nm = f.id if isinstance(f, ast.Name) else (f.attr if isinstance(f, ast.Attribute) and isinstance(f.value, ast.Name) and f.value.id in ('self', 'cls') else None)
+            if nm not in cms:
+                return node
+            c, fn, pre, post, yv, guarded = cms[nm]
+            if isinstance(f, ast.Name) != (c is tree):
+                return node
+            if it.optional_vars is not None and not isinstance(it.optional_vars, (ast.Name, ast.Tuple)):
+                return node
+            if post and not guarded and leaves(node.body):
+                return node
+            st, has_post, guarded, _ = helpers_for(nm)
+            counter[0] += 1
+            ecall = ast.Call(func=copy.deepcopy(f), args=call.args, keywords=call.keywords)
+            if isinstance(ecall.func, ast.Name):
+                ecall.func.id = nm + '__enter'
+            else:
+                ecall.func.attr = nm + '__enter'
+            tmps = ['__cm%d_%s' % (counter[0], n_) for n_ in st]
+            var = it.optional_vars if it.optional_vars is not None else ast.Name(id='__cm%d_value' % counter[0], ctx=ast.Store())
+            out = []
+            if has_post:
+                tgt = ast.Tuple(elts=[var] + [ast.Name(id=t, ctx=ast.Store()) for t in tmps], ctx=ast.Store())
+                out.append(ast.Assign(targets=[tgt], value=ecall))
+                xcall = ast.Call(func=copy.deepcopy(f), args=[ast.Name(id=t, ctx=ast.Load()) for t in tmps], keywords=[])
+                if isinstance(xcall.func, ast.Name):
+                    xcall.func.id = nm + '__exit'
+                else:
+                    xcall.func.attr = nm + '__exit'
+                if guarded:
+                    out.append(ast.Try(body=node.body, handlers=[], orelse=[], finalbody=[ast.Expr(value=xcall)]))
+                else:
+                    out.extend(node.body)
+                    out.append(ast.Expr(value=xcall))
+            else:
+                if it.optional_vars is not None:
+                    out.append(ast.Assign(targets=[var], value=ecall))
+                else:
+                    out.append(ast.Expr(value=ecall))
+                out.extend(node.body)
+            for o in out:
+                ast.copy_location(o, node)
+                ast.fix_missing_locations(o)
+            nonlocal changed
+            changed = True
+            return out
+    T().visit(tree)
+    for c, fn, new in pending:
+        i = c.body.index(fn)
+        c.body[i + 1:i + 1] = new
+    # a context manager none of whose uses is left is dropped (its generator body is not a kernel)
+    for nm, (c, fn, *_rest) in cms.items():
+        refs = sum(1 for x in ast.walk(tree) if (isinstance(x, ast.Name) and x.id == nm) or (isinstance(x, ast.Attribute) and x.attr == nm))
+        if refs == 0 and nm in made and fn in c.body:
+            c.body.remove(fn)
+    ast.fix_missing_locations(tree)
+    return changed
+
+
+def _walk_stmt_own(st):
+    stack = [st]
+    while stack:
+        n = stack.pop()
+        yield n
+        if isinstance(n, (ast.FunctionDef, ast.AsyncFunctionDef, ast.Lambda, ast.ClassDef)) and n is not st:
+            continue
+        stack.extend(ast.iter_child_nodes(n))
+
+
 def _split_chained_assignments(tree):
     """a = b = E  ->  a = E ; b = a        (plain names; E is evaluated once, the targets are bound left to right)"""
     class T(ast.NodeTransformer):
@@ -1589,8 +1819,17 @@ def apply_simple_decorators(tree):
 def normalize_module(tree, modname):
     from . import lower
     spell = Spelling(methods=modname in KERNEL_MODULES)
+    _canon_std_imports(tree)
     spell.operator_aliases = tuple(a.asname or a.name for n_ in ast.walk(tree) if isinstance(n_, ast.Import) for a in n_.names if a.name == 'operator')
+    spell.operator_names = {(a.asname or a.name): a.name for n_ in ast.walk(tree) if isinstance(n_, ast.ImportFrom) and n_.module == 'operator' for a in n_.names}
+    spell.math_aliases = tuple(a.asname or a.name for n_ in ast.walk(tree) if isinstance(n_, ast.Import) for a in n_.names if a.name == 'math')
+    has_np = any(isinstance(n_, ast.Import) and any(a.name == 'numpy' and a.asname == 'np' for a in n_.names) for n_ in ast.walk(tree))
+    if not has_np:
+        spell.math_aliases = ()
     _split_chained_assignments(tree)
+    from . import devirt
+    devirt.devirtualize(tree)
+    _expand_private_contextmanagers(tree)
     _private_generators_to_lists(tree)
     spell.visit(tree)
     apply_simple_decorators(tree)
